@@ -90,7 +90,7 @@ def compare_runs(results, variants, info) -> list[tuple[str, str, dict]]:
 
 def run_case(ctx, index: int, *, salt="proj"):
     r = ctx.rng(salt, index)
-    family = ("projgen", "race", "race", "amend-timing")[index % 4]
+    family = ("projgen", "race", "race", "amend-timing", "deferred-producer")[index % 5]
     info = {"family": family}
     if family == "projgen":
         roll = r.random()
@@ -109,11 +109,18 @@ def run_case(ctx, index: int, *, salt="proj"):
         project, rinfo = buildkit.gen_race_project(r, conflict=conflict)
         resources = None
         info.update(rinfo)
+    elif family == "deferred-producer":
+        project, rinfo = buildkit.gen_deferred_producer_project(r)
+        resources = None
+        info.update(rinfo)
     else:
         project, rinfo = buildkit.gen_amend_timing_project(r)
         resources = None
         info.update(rinfo)
     variants = buildkit.schedule_variants(r, resources, 4)
+    if family == "deferred-producer":
+        variants = [{"njob": 1, "schedule": ("fifo",)}, {"njob": 1, "schedule": ("lifo",)}] + [
+            {"njob": r.randint(2, 5), "schedule": ("random", r.randrange(1 << 30))} for _ in range(3)]
     if family == "amend-timing":
         # the guard only matters with three or more jobs and many interleavings
         variants = [{"njob": 1, "schedule": ("fifo",)}] + [
@@ -177,7 +184,7 @@ async def search(ctx):
         st.case(("proj", i, summary["family"]), nontrivial=summary["distinct_traces"] > 1)
         st.programs += 1
         st.count("projects:" + summary["family"])
-        st.count("builds", 6 if summary["family"] == "amend-timing" else 4)
+        st.count("builds", 6 if summary["family"] == "amend-timing" else 5 if summary["family"] == "deferred-producer" else 4)
         st.count("commands-executed", summary["commands"])
         st.count("class:" + "/".join(sorted(set(summary["classes"]))))
         st.count("distinct-interleavings", summary["distinct_traces"])
